@@ -256,6 +256,19 @@ func (r *Run) Violate(v Violation, knownID string) {
 	}
 }
 
+// violations that carry a concrete failing input (not only a model / implementation disagreement)
+func (r *Run) NOracleViolations() int {
+	r.mu.Lock()
+	defer r.mu.Unlock()
+	n := 0
+	for _, v := range r.Violations {
+		if v.Kind == "oracle" {
+			n++
+		}
+	}
+	return n
+}
+
 func (r *Run) NViolations() int {
 	r.mu.Lock()
 	defer r.mu.Unlock()
